@@ -179,6 +179,7 @@ func forwarderRuntime(x common.Address) []byte {
 		opPUSH20, ax, opEXTCODESIZE, "#2", opSSTORE,
 		opSTOP)
 }
+
 var revertingInit = asm("#0x66", "#1", opSSTORE, "#0", "#0", opREVERT)
 var loopingInit = asm(":top", "#1", "#1", opSSTORE, "@top", opJUMP) // burns all gas
 
